@@ -538,7 +538,7 @@ class WriteUtf16(Contract):
     """emits the UTF-16-LE code units of the name, then the zero unit"""
 
     target = AI + "write_utf16"
-    props = ("C17", "C07")
+    props = ("C17", "C07", "C01")
     assumptions = ("str.encode('utf-16LE') is concatenation-compatible (encoding of a string is the concatenation of the encodings of its characters) - assumed codec fact, DESIGN.md 6.3",)
 
     def setup(self, c):
@@ -577,7 +577,7 @@ class ReadUtf16(Contract):
     terminator; never consumes more than MAX_LENGTH units (C05)"""
 
     target = AI + "read_utf16"
-    props = ("C17", "C06", "C05")
+    props = ("C17", "C06", "C05", "C01")
 
     def setup(self, c):
         return {"file": c.instream("file")}
